@@ -106,7 +106,14 @@ def run(tier, seed, replay=None):
     for ty, cs in accepted.items():
         rnd.shuffle(cs)
         if tier == "quick":
-            cs = cs[:160]
+            # stratified: every distinct (value, base, sign spelling) once, the separator pattern seed-chosen
+            seen, keep = set(), []
+            for c in cs:
+                k = (c["expect"], c["base"], c["sgn"])
+                if k not in seen:
+                    seen.add(k)
+                    keep.append(c)
+            cs = keep
         for i in range(0, len(cs), 40):
             batches.append((ty, cs[i:i + 40]))
 
@@ -146,8 +153,10 @@ def run(tier, seed, replay=None):
         "values_observed": n_val, "values_correct": n_val_ok, "batches_not_built": n_batch_void,
         "exhaustive": True,
         "rule": "12 types x (type boundaries +-2, -1, 0, 1, 2^k +- 1 both signs for k in {7,8,15,16,31,32,63,64,127,128,"
-                "255,256} up to the width) x 4 bases x 3 separator patterns (6768 literals) x positions {initialiser, "
-                "argument, return} (quick: one rotating position, 160 observed values per type); distinct = distinct "
+                "255,256} up to the width; for types of 64 bits and more also the round constants n*2^k, n in {5,10,15}, "
+                "k in {64, w/2, w/2+4, w-8, w-4}) x 4 bases x 3 separator patterns, negative values also with the minus "
+                "sign written apart ('- 5'; 10056 literals) x positions {initialiser, "
+                "argument, return} (quick: one rotating position; every value x base x sign spelling observed once per type); distinct = distinct "
                 "(type, literal text)",
     })
     chk.assumptions += ["decimal printing of the runtime (io::Println) is the observation of 'the running program observes'",
